@@ -13,7 +13,6 @@ import (
 	"fmt"
 	"hash"
 	"regexp"
-	"runtime"
 	"runtime/debug"
 	"sort"
 	"strconv"
@@ -48,8 +47,10 @@ type Violation struct {
 
 type Task struct {
 	Name  string
+	Node  string
 	Done  bool
 	Panic interface{}
+	kids  int
 }
 
 type Stop int
@@ -91,6 +92,15 @@ type Sim struct {
 	live    int
 	current string
 	gnode   map[uint64]string
+	gtask   map[uint64]*Task
+	// YieldOn decides whether a woven statement-level yield site is an
+	// actual preemption point in this run (nil = every site).
+	YieldOn func(site int) bool
+	// TimeSkip, when > 0, lets the scheduler occasionally (1 in TimeSkip
+	// decisions) let virtual time pass although tasks are runnable (a stalled
+	// thread): it sleeps until the next timer or SkipMax.
+	TimeSkip int
+	SkipMax  time.Duration
 
 	strat strategy
 
@@ -117,6 +127,7 @@ func New(t *tape.Tape) *Sim {
 		MaxSteps:        400000,
 		Counters:        map[string]int64{},
 		gnode:           map[uint64]string{},
+		gtask:           map[uint64]*Task{},
 		StopOnViolation: true,
 		TraceMax:        4000,
 	}
@@ -146,20 +157,8 @@ func (s *Sim) Current() string {
 	return s.current
 }
 
-// goid returns the current goroutine's id (parsed from the stack header).
-func goid() uint64 {
-	var buf [40]byte
-	n := runtime.Stack(buf[:], false)
-	// "goroutine 123 ["
-	var id uint64
-	for _, c := range buf[10:n] {
-		if c < '0' || c > '9' {
-			break
-		}
-		id = id*10 + uint64(c-'0')
-	}
-	return id
-}
+// goid returns the current goroutine's id (from the runtime seam).
+func goid() uint64 { return rtGoid() }
 
 // EntropyNode names the node on whose behalf the calling goroutine acts.
 // Goroutines started through Go (or registered with Adopt) are known by id,
@@ -174,6 +173,54 @@ func (s *Sim) EntropyNode() string {
 		return n
 	}
 	return s.current
+}
+
+func (s *Sim) adoptTask(t *Task) func() {
+	g := goid()
+	s.mu.Lock()
+	s.gtask[g] = t
+	s.mu.Unlock()
+	return func() {
+		s.mu.Lock()
+		delete(s.gtask, g)
+		s.mu.Unlock()
+	}
+}
+
+// CurrentTask returns the task the calling goroutine runs as (nil for
+// goroutines the kernel did not start).
+func (s *Sim) CurrentTask() *Task {
+	g := goid()
+	s.mu.Lock()
+	defer s.mu.Unlock()
+	return s.gtask[g]
+}
+
+// YieldSite is called by woven code before a statement.
+func (s *Sim) YieldSite(site int) {
+	if s.YieldOn != nil && !s.YieldOn(site) {
+		return
+	}
+	t := s.CurrentTask()
+	if t == nil || t.Done {
+		return
+	}
+	s.Park(t.Node, t.Name)
+}
+
+// GoChild starts a goroutine spawned by woven code as a named task: its
+// identity is parent>site#n, deterministic under replay.
+func (s *Sim) GoChild(site int, f func()) {
+	parent := s.CurrentTask()
+	name := "anon"
+	if parent != nil {
+		s.mu.Lock()
+		parent.kids++
+		n := parent.kids
+		s.mu.Unlock()
+		name = parent.Name + ">" + strconv.Itoa(site) + "#" + strconv.Itoa(n)
+	}
+	s.Go(name, f)
 }
 
 // Adopt registers the calling goroutine as belonging to node until the
@@ -212,14 +259,15 @@ func (s *Sim) Park(node, key string) {
 // Go starts a named harness task.  The task first parks, so even its start
 // is a scheduler decision.
 func (s *Sim) Go(name string, f func()) *Task {
-	t := &Task{Name: name}
+	t := &Task{Name: name, Node: NodeOf(name)}
 	s.mu.Lock()
 	s.tasks = append(s.tasks, t)
 	s.live++
 	s.mu.Unlock()
-	node := NodeOf(name)
+	node := t.Node
 	go func() {
 		defer s.Adopt(node)()
+		defer s.adoptTask(t)()
 		defer func() {
 			if r := recover(); r != nil {
 				if s.Recover == nil || !s.Recover(name, r) {
@@ -379,6 +427,22 @@ func (s *Sim) Run(until func() bool, maxV time.Duration) Stop {
 			continue
 		}
 		s.mu.Unlock()
+		if s.TimeSkip > 0 && s.T.Draw("skip", s.TimeSkip) == s.TimeSkip-1 {
+			// a stalled machine: runnable tasks are held back while time passes
+			opts := []time.Duration{time.Nanosecond, time.Microsecond, time.Millisecond, time.Second, s.SkipMax}
+			d := opts[s.T.Draw("skip.d", len(opts))]
+			if d > s.SkipMax {
+				d = s.SkipMax
+			}
+			if d > 0 {
+				s.mu.Lock()
+				s.logLocked("skip", d.String())
+				s.Counters["fault.time-skip"]++
+				s.mu.Unlock()
+				time.Sleep(d)
+				continue
+			}
+		}
 		if s.PreStep != nil {
 			s.PreStep()
 		}
